@@ -283,4 +283,74 @@ mod verif_replay_expr_dm {
         let p = panicked.lock().unwrap();
         assert!(p.is_empty(), "evaluating these texts panicked instead of returning an error: {:?}", *p);
     }
+
+    /// C10: the values the language defines for its operators (README of the expression engine and the property
+    /// statement): Integer arithmetic stays Integer and saturates, division yields Double, Double contagion, '+'
+    /// aggregates strings, arrays and maps, structural equality, comparisons on numbers and strings, member / index access
+    #[test]
+    fn verif_replay_operator_values() {
+        for (src, want) in [
+            ("2 * 3", "6"),
+            ("7 / 2", "3.5"),
+            ("6 / 3", "2"),
+            ("6 : 3", "2"),
+            ("1 + 2.5", "3.5"),
+            ("2.5 * 2", "5"),
+            ("7 - 2.5", "4.5"),
+            ("9223372036854775807 + 1", "9223372036854775807"),
+            ("-9223372036854775807 - 5", "-9223372036854775808"),
+            ("9223372036854775807 * 2", "9223372036854775807"),
+            ("7 % 4", "3"),
+            ("0 - 7 % 4", "-3"),
+            ("7.5 % 2", "1.5"),
+            ("'a' + 'b'", "ab"),
+            ("'a' + 1", "a1"),
+            ("1 + 'a'", "1a"),
+            ("[1,2] + 3", "[1,2,3]"),
+            ("['a'] + ['b'] + 'c' == ['a','b'] + ['c']", "true"),
+            ("{'b':'abc'} + {'a':123} == {'a':123, 'b':'abc'}", "true"),
+            ("{'a':1} == {'a':2} + {'a':1}", "true"),
+            ("[1,2] == [1,2]", "true"),
+            ("[1,2] == [2,1]", "false"),
+            ("[1,[2]] == [1,[2]]", "true"),
+            ("1 == 1.0", "true"),
+            ("1 != 1", "false"),
+            ("'a' == 'a'", "true"),
+            ("'a' == 'b'", "false"),
+            ("null == null", "true"),
+            ("'a' < 'b'", "true"),
+            ("'2' < '10'", "false"),
+            ("2 < 10", "true"),
+            ("1 <= 1", "true"),
+            ("2 >= 3", "false"),
+            ("1.5 > 1", "true"),
+            ("true & false", "false"),
+            ("true | false", "true"),
+            ("!false", "true"),
+            ("[1,[2,3]][1][0]", "2"),
+            ("{'k':{'j':5}}.k.j", "5"),
+            ("{'k':5}['k']", "5"),
+            ("a = 5; a + 1", "6"),
+            ("c ?= 3; c + 1", "4"),
+        ] {
+            assert_eq!(eval(src), Ok(want.to_string()), "value of `{}`", src);
+        }
+        // '=' needs a declared variable
+        assert!(eval("undeclared = 1").is_err() || eval("undeclared = 1").unwrap().starts_with("Error"));
+    }
+
+    /// C10: the value is the same whether the expression is compiled afresh or served from the session's compilation
+    /// cache (same source id): a cached expression sees the current data, not the data at compile time
+    #[test]
+    fn verif_replay_compilation_cache() {
+        let mut dm = dm_with("v", Data::Integer(1));
+        let src = Data::Source(SourceCode::new("v + 1", 77));
+        let first = dm.execute(&src).map(|d| d.lock().unwrap().to_string());
+        assert_eq!(first, Ok("2".to_string()));
+        dm.set("v", Data::Integer(5), false);
+        let second = dm.execute(&src).map(|d| d.lock().unwrap().to_string());
+        assert_eq!(second, Ok("6".to_string()), "cached evaluation of `v + 1` after v changed to 5");
+        let fresh = dm.execute(&Data::Source(SourceCode::new("v + 1", 0))).map(|d| d.lock().unwrap().to_string());
+        assert_eq!(fresh, second);
+    }
 }
